@@ -108,6 +108,10 @@ func (g *gctx) iter() *Iter {
 	it := &Iter{ID: g.nextIt, Len: r.Intn(4), TJ: -1, TV: 300 + g.nextIt, Ret: 0, RV: 400 + g.nextIt}
 	if r.Chance(20) {
 		it.TJ = r.Intn(it.Len + 1)
+		it.TM = r.Intn(3)
+		if it.TJ >= it.Len && it.TM == 1 {
+			it.TM = 0 // the value of a done result is not read
+		}
 	}
 	it.Ret = r.Pick(6, 2, 1, 1)
 	return it
@@ -246,16 +250,23 @@ func genProg(r *vh.Rng) *Case {
 	return c
 }
 
-var surfaces = []string{"destruct", "destruct_assign", "spread", "spreadcall", "from", "map", "set", "promiseall", "yieldstar"}
+var surfaces = []string{"destruct", "destruct_assign", "spread", "spreadcall", "from", "map", "set", "promiseall", "yieldstar", "fromentries", "restdestruct"}
 
 func genBuiltin(r *vh.Rng) *Case {
 	g := &gctx{r: r}
 	c := &Case{Kind: "builtin", Surface: surfaces[r.Intn(len(surfaces))], It: g.iter()}
+	if c.It.TJ < 0 && r.Chance(35) {
+		c.It.TJ = r.Intn(c.It.Len + 1)
+		c.It.TM = r.Intn(3)
+	}
 	switch c.Surface {
 	case "destruct", "destruct_assign":
 		c.Want = r.Intn(4)
 	case "yieldstar":
 		c.Want = 1 + r.Intn(3)
+		if c.It.TM == 1 {
+			c.It.TM = 0 // yield* hands the result object through without reading value
+		}
 	case "from", "map", "set", "promiseall":
 		if r.Chance(50) {
 			c.SJ = 1 + r.Intn(3)
@@ -266,7 +277,7 @@ func genBuiltin(r *vh.Rng) *Case {
 }
 
 func genCase(r *vh.Rng, i int) *Case {
-	if r.Chance(8) {
+	if r.Chance(10) {
 		return genBuiltin(r)
 	}
 	return genProg(r)
